@@ -1,10 +1,22 @@
 package main
 
+// Replay of refuted obligations on the real code: the solver's model is turned
+// into concrete Go inputs, an in-package test that calls the REAL function is
+// generated and run with `go test -overlay` (nothing is written into the
+// repository). A safety obligation is confirmed when the call panics.
+
 import (
+	"context"
 	"encoding/json"
 	"fmt"
+	"go/types"
+	"math/big"
 	"os"
+	"os/exec"
 	"path/filepath"
+	"strings"
+	"sync"
+	"time"
 )
 
 type replayResult struct {
@@ -18,19 +30,23 @@ type ReplayFile struct {
 	Status     string `json:"status"`
 	Detail     string `json:"solver_output_or_reason"`
 	Note       string `json:"note,omitempty"`
+	Inputs     string `json:"inputs_from_model,omitempty"`
 	TestSource string `json:"test_source,omitempty"`
-	TestPkgDir string `json:"test_pkg_dir,omitempty"`
+	TestPkg    string `json:"test_pkg,omitempty"`
 	TestOutput string `json:"test_output,omitempty"`
 	Confirmed  bool   `json:"confirmed_on_real_code"`
 }
 
-func writeReplayFile(dir string, o *Obligation, testSrc, testOut string) string {
+var replayMu sync.Mutex
+
+func writeReplayFileRF(dir string, rf ReplayFile) string {
+	replayMu.Lock()
+	defer replayMu.Unlock()
 	os.MkdirAll(dir, 0o755)
 	n := 0
 	for {
 		p := filepath.Join(dir, fmt.Sprintf("replay_%03d.json", n))
 		if _, err := os.Stat(p); err != nil {
-			rf := ReplayFile{Obligation: o.Name, Kind: o.Kind, Status: o.Status, Detail: o.Model, Note: o.Note, TestSource: testSrc, TestOutput: testOut}
 			b, _ := json.MarshalIndent(rf, "", " ")
 			os.WriteFile(p, b, 0o644)
 			return p
@@ -39,8 +55,438 @@ func writeReplayFile(dir string, o *Obligation, testSrc, testOut string) string 
 	}
 }
 
+func writeReplayFile(dir string, o *Obligation, testSrc, testOut string) string {
+	return writeReplayFileRF(dir, ReplayFile{Obligation: o.Name, Kind: o.Kind, Status: o.Status, Detail: truncate(o.Model, 4000), Note: o.Note, TestSource: testSrc, TestOutput: testOut})
+}
+
+func panicKind(k string) bool {
+	switch k {
+	case "index", "slice", "makeslice", "divzero", "nil", "nilmap", "typeassert", "panic", "negshift", "nilfunc":
+		return true
+	}
+	return strings.HasPrefix(k, "pre ")
+}
+
+// modelValues asks the solver for the values of the given terms in a model of the refuted obligation.
+func modelValues(o *Obligation, terms []string, dir string) (map[string]string, bool) {
+	if len(terms) == 0 {
+		return map[string]string{}, true
+	}
+	hyps := append([]string{}, o.Hyps...)
+	for _, t := range terms {
+		hyps = append(hyps, "(= "+t+" "+t+")") // only to pull the terms' definitions into the query
+	}
+	txt := o.VC.Emit(hyps, o.Goal, true)
+	// quantified hypotheses make the solver answer unknown: drop them for model search (the model is
+	// validated by running the real code, so weakening the hypotheses is harmless)
+	txt = stripQuantifiedAsserts(txt)
+	txt = strings.Replace(txt, "(get-model)", "(get-value ("+strings.Join(terms, " ")+"))", 1)
+	os.MkdirAll(dir, 0o755)
+	f := filepath.Join(dir, "model_query.smt2")
+	os.WriteFile(f, []byte(txt), 0o644)
+	r := runSolver(context.Background(), solverSpec{"z3-new", func(f string, t float64) []string {
+		return []string{"z3-new", "-T:20", f}
+	}}, f, 20)
+	if r.verdict != "sat" {
+		return nil, false
+	}
+	body := r.out
+	k := strings.Index(body, "(")
+	if k < 0 {
+		return nil, false
+	}
+	out := map[string]string{}
+	for _, pair := range sexpList(body[k:]) {
+		kv := sexpList(pair)
+		if len(kv) == 2 {
+			out[strings.Join(strings.Fields(kv[0]), " ")] = strings.TrimSpace(kv[1])
+		}
+	}
+	return out, true
+}
+
+func stripQuantifiedAsserts(txt string) string {
+	var out []string
+	for _, l := range strings.Split(txt, "\n") {
+		if strings.HasPrefix(l, "(assert ") && (strings.Contains(l, "(forall ") || strings.Contains(l, "(exists ")) {
+			// keep definitions "x = (and a (forall ..))" weakened: replace the quantified conjunct by true
+			l = weakenQuantifiers(l)
+		}
+		out = append(out, l)
+	}
+	return strings.Join(out, "\n")
+}
+
+func weakenQuantifiers(l string) string {
+	for {
+		k := strings.Index(l, "(forall ")
+		if k < 0 {
+			k = strings.Index(l, "(exists ")
+		}
+		if k < 0 {
+			return l
+		}
+		d := 0
+		end := -1
+		for m := k; m < len(l); m++ {
+			if l[m] == '(' {
+				d++
+			} else if l[m] == ')' {
+				d--
+				if d == 0 {
+					end = m
+					break
+				}
+			}
+		}
+		if end < 0 {
+			return l
+		}
+		l = l[:k] + "true" + l[end+1:]
+	}
+}
+
+func parseSMTInt(v string) (*big.Int, bool) {
+	v = strings.TrimSpace(v)
+	switch {
+	case strings.HasPrefix(v, "#x"):
+		n, ok := new(big.Int).SetString(v[2:], 16)
+		return n, ok
+	case strings.HasPrefix(v, "#b"):
+		n, ok := new(big.Int).SetString(v[2:], 2)
+		return n, ok
+	case strings.HasPrefix(v, "(- "):
+		n, ok := new(big.Int).SetString(strings.TrimSuffix(v[3:], ")"), 10)
+		if ok {
+			n.Neg(n)
+		}
+		return n, ok
+	case strings.HasPrefix(v, "(_ bv"):
+		f := strings.Fields(v[5:])
+		n, ok := new(big.Int).SetString(f[0], 10)
+		return n, ok
+	}
+	n, ok := new(big.Int).SetString(v, 10)
+	return n, ok
+}
+
+type litBuilder struct {
+	o      *Obligation
+	x      map[string]string // term -> value (after query)
+	terms  []string
+	maxLen int
+}
+
+func (lb *litBuilder) want(t string) { lb.terms = append(lb.terms, strings.Join(strings.Fields(t), " ")) }
+
+func (lb *litBuilder) intOf(t string, s *Sort) (*big.Int, bool) {
+	v, ok := lb.x[strings.Join(strings.Fields(t), " ")]
+	if !ok {
+		return nil, false
+	}
+	n, ok := parseSMTInt(v)
+	if !ok {
+		return nil, false
+	}
+	if s != nil && s.K == SBV && s.Signed && n.Cmp(pow2(s.Bits-1)) >= 0 {
+		n = new(big.Int).Sub(n, pow2(s.Bits))
+	}
+	return n, true
+}
+
+func elemTerm(o *Obligation, et types.Type, base, idx string, mode Mode) string {
+	name := fmt.Sprintf("E$%s$0", typeKey(et))
+	e, ok := o.EntryHeap[name]
+	if !ok {
+		return ""
+	}
+	return "(select (select " + e + " " + base + ") " + idx + ")"
+}
+
+// collect / build: two passes over the type structure of a value.
+func (lb *litBuilder) scalarLit(t types.Type, term string, s *Sort) (string, bool) {
+	b, ok := t.Underlying().(*types.Basic)
+	if !ok {
+		return "", false
+	}
+	switch {
+	case b.Info()&types.IsBoolean != 0:
+		v := lb.x[strings.Join(strings.Fields(term), " ")]
+		return v, v == "true" || v == "false"
+	case b.Info()&types.IsInteger != 0:
+		n, ok := lb.intOf(term, s)
+		if !ok {
+			return "", false
+		}
+		return fmt.Sprintf("%s(%s)", types.TypeString(t, relPkg), n.String()), true
+	}
+	return "", false
+}
+
+func relPkg(p *types.Package) string { return "" }
+
+const replayMaxElems = 40
+
+// valueTerms registers the terms needed to rebuild v.
+func (lb *litBuilder) valueTerms(v Val, mode Mode) bool {
+	t := v.GT
+	if t == nil {
+		return false
+	}
+	switch u := t.Underlying().(type) {
+	case *types.Basic:
+		if u.Info()&types.IsString != 0 {
+			lb.want("(str.len " + v.L[0] + ")")
+			for k := 0; k < replayMaxElems; k++ {
+				lb.want(fmt.Sprintf("(str.at %s %d)", v.L[0], k))
+			}
+			return true
+		}
+		if u.Info()&(types.IsInteger|types.IsBoolean) != 0 {
+			lb.want(v.L[0])
+			return true
+		}
+	case *types.Slice:
+		eb, ok := u.Elem().Underlying().(*types.Basic)
+		if !ok || eb.Info()&types.IsInteger == 0 {
+			return false
+		}
+		lb.want(v.L[0])
+		lb.want(v.L[1])
+		lb.want(v.L[2])
+		lb.want(v.L[3])
+		for k := 0; k < replayMaxElems; k++ {
+			idx := fmt.Sprintf("(+ %s %d)", v.L[1], k)
+			if mode.BV {
+				idx = fmt.Sprintf("(bvadd %s (_ bv%d 64))", v.L[1], k)
+			}
+			if et := elemTerm(lb.o, u.Elem(), v.L[0], idx, mode); et != "" {
+				lb.want(et)
+			}
+		}
+		return true
+	}
+	return false
+}
+
+func (lb *litBuilder) valueLit(v Val, mode Mode) (string, bool) {
+	t := v.GT
+	switch u := t.Underlying().(type) {
+	case *types.Basic:
+		if u.Info()&types.IsString != 0 {
+			n, ok := lb.intOf("(str.len "+v.L[0]+")", nil)
+			if !ok || n.Sign() < 0 || n.Cmp(big.NewInt(replayMaxElems)) > 0 {
+				return "", false
+			}
+			bs := make([]byte, n.Int64())
+			for k := range bs {
+				if c, ok := lb.intOf(fmt.Sprintf("(str.at %s %d)", v.L[0], k), nil); ok && c.IsInt64() && c.Int64() >= 0 && c.Int64() < 256 {
+					bs[k] = byte(c.Int64())
+				}
+			}
+			return fmt.Sprintf("%s(%q)", types.TypeString(t, relPkg), string(bs)), true
+		}
+		return lb.scalarLit(t, v.L[0], v.S[0])
+	case *types.Slice:
+		base, ok := lb.intOf(v.L[0], nil)
+		if !ok {
+			return "", false
+		}
+		if base.Sign() == 0 {
+			return "nil", true
+		}
+		n, ok1 := lb.intOf(v.L[2], v.S[2])
+		c, ok2 := lb.intOf(v.L[3], v.S[3])
+		if !ok1 || !ok2 || n.Sign() < 0 || n.Cmp(big.NewInt(replayMaxElems)) > 0 {
+			return "", false
+		}
+		capv := n.Int64()
+		if c.IsInt64() && c.Int64() > capv && c.Int64() <= 4*replayMaxElems {
+			capv = c.Int64()
+		}
+		var elems []string
+		es := &Sort{K: SInt}
+		if mode.BV {
+			bits, signed := basicBits(u.Elem().Underlying().(*types.Basic))
+			es = &Sort{K: SBV, Bits: bits, Signed: signed}
+		}
+		for k := int64(0); k < n.Int64(); k++ {
+			idx := fmt.Sprintf("(+ %s %d)", v.L[1], k)
+			if mode.BV {
+				idx = fmt.Sprintf("(bvadd %s (_ bv%d 64))", v.L[1], k)
+			}
+			val := big.NewInt(0)
+			if et := elemTerm(lb.o, u.Elem(), v.L[0], idx, mode); et != "" {
+				if x, ok := lb.intOf(et, es); ok {
+					val = x
+				}
+			}
+			// clamp into the element type
+			bits, signed := basicBits(u.Elem().Underlying().(*types.Basic))
+			lo, hi := rangeOf(&Sort{Bits: bits, Signed: signed})
+			if val.Cmp(lo) < 0 || val.Cmp(hi) > 0 {
+				val = big.NewInt(0)
+			}
+			elems = append(elems, val.String())
+		}
+		ts := types.TypeString(t, relPkg)
+		lit := fmt.Sprintf("append(make(%s, 0, %d), %s{%s}...)", ts, capv, ts, strings.Join(elems, ", "))
+		return lit, true
+	}
+	return "", false
+}
+
+// tryReplay builds and runs a replay test for a refuted safety obligation.
 func tryReplay(w *World, o *Obligation, dir string) replayResult {
-	return replayResult{false, writeReplayFile(dir, o, "", "")}
+	rf := ReplayFile{Obligation: o.Name, Kind: o.Kind, Status: o.Status, Detail: truncate(o.Model, 3000), Note: o.Note}
+	fail := func(why string) replayResult {
+		if rf.Note != "" {
+			rf.Note += "; "
+		}
+		rf.Note += "no replay: " + why
+		return replayResult{false, writeReplayFileRF(dir, rf)}
+	}
+	if w == nil || w.prog == nil || o.VC == nil || o.RootKey == "" || os.Getenv("VERIF_NO_REPLAY") != "" {
+		return fail("obligation has no executable counterpart")
+	}
+	if o.Status == "discharged" {
+		return fail("discharged")
+	}
+	if !panicKind(o.Kind) {
+		return fail("not a panic-class obligation (ghost / functional clause): no concrete witness is constructed")
+	}
+	fn := w.FindFunc(o.RootKey)
+	if fn == nil || fn.Pkg == nil {
+		return fail("function not found")
+	}
+	mode := o.VC.mode
+	lb := &litBuilder{o: o}
+	// receiver + params
+	for _, in := range o.Inputs {
+		if !lb.valueTerms(in.V, mode) {
+			// pointer receiver with scalar fields?
+			if p, ok := in.GT.Underlying().(*types.Pointer); ok {
+				if su, ok := p.Elem().Underlying().(*types.Struct); ok {
+					okAll := true
+					for i := 0; i < su.NumFields(); i++ {
+						fb, isB := su.Field(i).Type().Underlying().(*types.Basic)
+						if !isB || fb.Info()&(types.IsInteger|types.IsBoolean) == 0 {
+							okAll = false
+							break
+						}
+						name := fmt.Sprintf("H$%s$%s$0", typeKey(p.Elem()), su.Field(i).Name())
+						if e, ok := o.EntryHeap[name]; ok {
+							lb.want("(select " + e + " " + in.V.L[0] + ")")
+						}
+					}
+					if okAll {
+						continue
+					}
+				}
+			}
+			return fail("input " + in.Name + " of type " + in.GT.String() + " is not concretisable")
+		}
+	}
+	tmpd, _ := os.MkdirTemp("", "govc-model")
+	vals, ok := modelValues(o, lb.terms, tmpd)
+	if os.Getenv("GOVC_KEEP_TMP") == "" {
+		os.RemoveAll(tmpd)
+	}
+	if !ok {
+		return fail("solver gave no model for the quantifier-free part")
+	}
+	lb.x = vals
+	var args []string
+	var inputsDesc []string
+	for _, in := range o.Inputs {
+		lit, ok := lb.valueLit(in.V, mode)
+		if !ok {
+			if p, isP := in.GT.Underlying().(*types.Pointer); isP {
+				if su, isS := p.Elem().Underlying().(*types.Struct); isS {
+					var fs []string
+					for i := 0; i < su.NumFields(); i++ {
+						name := fmt.Sprintf("H$%s$%s$0", typeKey(p.Elem()), su.Field(i).Name())
+						e, has := o.EntryHeap[name]
+						if !has {
+							continue
+						}
+						fl, ok := lb.scalarLit(su.Field(i).Type(), "(select "+e+" "+in.V.L[0]+")", lb.o.VC.sortOfGo(su.Field(i).Type()))
+						if ok {
+							fs = append(fs, su.Field(i).Name()+": "+fl)
+						}
+					}
+					lit, ok = "&"+types.TypeString(p.Elem(), relPkg)+"{"+strings.Join(fs, ", ")+"}", true
+				}
+			}
+			if !ok {
+				return fail("model value of " + in.Name + " could not be turned into a Go literal")
+			}
+		}
+		args = append(args, lit)
+		inputsDesc = append(inputsDesc, in.Name+" = "+lit)
+	}
+	rf.Inputs = strings.Join(inputsDesc, "; ")
+	// call expression
+	var call string
+	if fn.Signature.Recv() != nil {
+		if len(args) == 0 {
+			return fail("no receiver value")
+		}
+		call = "(" + args[0] + ")." + fn.Name() + "(" + strings.Join(args[1:], ", ") + ")"
+	} else {
+		call = fn.Name() + "(" + strings.Join(args, ", ") + ")"
+	}
+	src := fmt.Sprintf(`package %s
+
+import (
+	"fmt"
+	"testing"
+)
+
+// generated by govc from the solver's model of the failed obligation
+// %s
+func TestVerifReplay(t *testing.T) {
+	defer func() {
+		if r := recover(); r != nil {
+			fmt.Printf("REPLAY-CONFIRMED panic: %%v\n", r)
+			t.Fail()
+		}
+	}()
+	%s
+	fmt.Println("REPLAY-NO-PANIC")
+}
+`, fn.Pkg.Pkg.Name(), strings.ReplaceAll(o.Name, "\n", " "), call)
+	rf.TestSource = src
+	rf.TestPkg = fn.Pkg.Pkg.Path()
+	out, confirmed := runOverlayTest(w.repo, fn.Pkg.Pkg.Path(), src)
+	rf.TestOutput = truncate(out, 3000)
+	rf.Confirmed = confirmed
+	return replayResult{confirmed, writeReplayFileRF(dir, rf)}
+}
+
+func runOverlayTest(repo, pkgPath, src string) (string, bool) {
+	rel := strings.TrimPrefix(strings.TrimPrefix(pkgPath, modulePath), "/")
+	if rel == "" {
+		rel = "."
+	}
+	tmp, err := os.MkdirTemp("", "govc-replay")
+	if err != nil {
+		return err.Error(), false
+	}
+	defer os.RemoveAll(tmp)
+	tf := filepath.Join(tmp, "t_test.go")
+	os.WriteFile(tf, []byte(src), 0o644)
+	ov := map[string]map[string]string{"Replace": {filepath.Join(repo, rel, "zz_verif_replay_test.go"): tf}}
+	b, _ := json.Marshal(ov)
+	ovf := filepath.Join(tmp, "ov.json")
+	os.WriteFile(ovf, b, 0o644)
+	ctx, cancel := context.WithTimeout(context.Background(), 120*time.Second)
+	defer cancel()
+	cmd := exec.CommandContext(ctx, "bash", "-c", fmt.Sprintf("ulimit -v 4000000; cd %s && go test -overlay %s -vet=off -timeout 60s -count=1 -run '^TestVerifReplay$' ./%s 2>&1 | tail -40", repo, ovf, rel))
+	cmd.Env = append(os.Environ(), "GOFLAGS=-mod=mod", "GOPROXY=off", "GOSUMDB=off", "GOTOOLCHAIN=local")
+	out, _ := cmd.CombinedOutput()
+	s := string(out)
+	return s, strings.Contains(s, "REPLAY-CONFIRMED")
 }
 
 func runReplayFile(path string) int {
@@ -51,6 +497,20 @@ func runReplayFile(path string) int {
 	}
 	var rf ReplayFile
 	json.Unmarshal(b, &rf)
-	fmt.Printf("obligation: %s\nstatus: %s\n%s\n", rf.Obligation, rf.Status, rf.Detail)
+	fmt.Printf("obligation: %s\nstatus: %s\n", rf.Obligation, rf.Status)
+	if rf.Inputs != "" {
+		fmt.Println("inputs:", rf.Inputs)
+	}
+	if rf.TestSource == "" {
+		fmt.Printf("no executable witness (no-failing-input-found)\n%s\n%s\n", rf.Note, rf.Detail)
+		return 1
+	}
+	out, confirmed := runOverlayTest(repoDir(), rf.TestPkg, rf.TestSource)
+	fmt.Println(out)
+	if confirmed {
+		fmt.Println("replay: the failure reproduces on the real code")
+		return 1
+	}
+	fmt.Println("replay: the failure does not reproduce")
 	return 0
 }
